@@ -242,7 +242,7 @@ func H14_in_ReadArray() {
 	vhAssume(vhAnd(nbytes >= 0, nbytes <= (K+7)/8+1))
 	bits := make([]byte, nbytes)
 	cnt := vhUint("count")
-	vhAssume(cnt <= uint(K))
+	vhAssume(vhAnd(cnt <= uint(K), cnt >= uint(vhParam("minCount", 0))))
 	p := vhU64("probe")
 	r0 := vhRhoLen(bs, src)
 	d0 := bs.Read()
